@@ -27,7 +27,7 @@ LEVEL_NOTE = "Trusted: shapely half-plane clipping, shoelace areas, winding numb
 def budget(tier):
     if tier == "quick":
         return dict(max_examples=150, workers=8, time_s=170, min_cases=50)
-    return dict(max_examples=5000, workers=16, time_s=1200, min_cases=1000)
+    return dict(max_examples=5000, workers=16, time_s=1200, min_cases=100)
 
 
 @st.composite
